@@ -52,7 +52,9 @@ def run_tlc(module, cfg=None, env=None, workers=12, timeout=600, heap="8g", simu
     e["JAVA_TOOL_OPTIONS"] = " ".join(jopts)
     # java is started directly (as the `tlc' wrapper does) so that -Xss also applies to the main thread,
     # which computes the initial states (bracket tables of long programs are deep recursions)
-    cmd = ["timeout", "-k", "10", str(int(timeout)), "java", "-XX:+UseParallelGC", "-Xss1g", "-cp", _classpath(),
+    cmd = ["timeout", "-k", "10", str(int(timeout)), "java", "-XX:+UseParallelGC", "-Xss1g",
+           "-Djava.io.tmpdir=" + meta,             # SANY's scratch directories go with the metadir
+           "-cp", _classpath(),
            "tlc2.TLC", "-workers", str(workers), "-metadir", meta, "-cleanup", "-noGenerateSpecTE"]
     if coverage:
         cmd += ["-coverage", "1"]
